@@ -196,11 +196,19 @@ def configure_node(node, classic: bool) -> None:
 class Env:
     """One world with the connection under test (victim 0 <-> peer 1) and the bystander (0 <-> 2)."""
 
-    def __init__(self, classic: bool):
+    def __init__(self, classic: bool, rich_bystander: bool = False, user: str | None = None):
         self.classic = classic
         self.w = None
         self.conn_l = self.conn_r = self.conn_bl = self.conn_b = None
         self.by_state = None
+        # the victim's second link carries per-connection state of its own (transport-loss cases)
+        self.rich_bystander = rich_bystander
+        self.by_channel = None
+        # the user behind the pairing delegate: 'late' answers after USER_LATE s, 'never' not within the horizon
+        self.user = user or 'late'
+        self.count_fn = lambda: 0
+        self.prompt_at = None
+        self.prompts_began = self.prompts_cancelled = self.prompts_pending = 0
 
     @property
     def local(self):
@@ -233,6 +241,11 @@ class Env:
             self.by_state = client
         else:
             self.by_state = await discover_chr(self.conn_bl.gatt_client)
+        if self.rich_bystander and not self.classic:
+            # GATT subscription of the bystander at the victim's server + an LE CoC on that link
+            ch = await discover_chr(self.conn_b.gatt_client, descriptors=True)
+            await ch.subscribe(lambda value: None)
+            self.by_channel = await self.conn_bl.create_l2cap_channel(spec=l2cap.LeCreditBasedChannelSpec(psm=PSM_LE))
 
     async def bystander_usable(self):
         if self.classic:
@@ -456,6 +469,129 @@ async def _s_paired(env):
     return env.conn_l.is_encrypted
 
 
+# ---- procedures made of one HCI command that is answered with a Command Status and, later, an event
+async def _r_le_encrypt(env, _):
+    await env.conn_l.encrypt()
+    return env.conn_l.is_encrypted
+
+
+async def _r_le_subrate(env, _):
+    await env.conn_l.update_subrate(subrate_min=1, subrate_max=2, max_latency=0, continuation_number=0,
+                                    supervision_timeout=1000)
+    return env.conn_l.parameters.subrate_factor
+
+
+async def _r_switch_role(env, _):
+    new_role = hci.Role.PERIPHERAL if env.conn_l.role == hci.Role.CENTRAL else hci.Role.CENTRAL
+    await env.conn_l.switch_role(new_role)
+    return env.conn_l.role == new_role
+
+
+async def _r_classic_features(env, _):
+    return int(await env.conn_l.get_remote_classic_features()) != 0
+
+
+# ---- pairing with a user in the loop: the stack's prompt task is pending while the link is cut
+USER_LATE = 2.0
+USER_NEVER = 1.0e6
+
+
+def _s_user(sc: bool, victim_io: str, peer_io: str, slow_node: int):
+    """Set-up: both devices get a pairing delegate with the given IO capabilities; the user of `slow_node` takes
+    USER_LATE virtual seconds to answer a prompt (env.user == 'never': does not answer within the horizon)."""
+
+    async def setup(env):
+        from bumble.pairing import PairingConfig, PairingDelegate
+
+        shared = {'passkey': None}
+
+        def make(index, io_name):
+            slow = index == slow_node
+
+            class User(PairingDelegate):
+                def __init__(self):
+                    super().__init__(getattr(PairingDelegate.IoCapability, io_name))
+
+                async def _think(self):
+                    if not slow:
+                        return
+                    if env.prompt_at is None:
+                        env.prompt_at = env.count_fn()
+                    env.prompts_began += 1
+                    env.prompts_pending += 1
+                    try:
+                        await asyncio.sleep(USER_NEVER if env.user == 'never' else USER_LATE)
+                    except asyncio.CancelledError:
+                        env.prompts_cancelled += 1
+                        raise
+                    finally:
+                        env.prompts_pending -= 1
+
+                async def confirm(self, auto: bool = False) -> bool:
+                    await self._think()
+                    return True
+
+                async def compare_numbers(self, number: int, digits: int) -> bool:
+                    await self._think()
+                    return True
+
+                async def get_number(self):
+                    await self._think()
+                    return shared['passkey']
+
+                async def display_number(self, number: int, digits: int) -> None:
+                    shared['passkey'] = number
+
+            return User()
+
+        env.local.device.pairing_config_factory = lambda connection: PairingConfig(
+            sc=sc, mitm=True, bonding=True, delegate=make(0, victim_io))
+        env.peer.device.pairing_config_factory = lambda connection: PairingConfig(
+            sc=sc, mitm=True, bonding=True, delegate=make(1, peer_io))
+        return None
+
+    return setup
+
+
+# ---- one waiter on each of the victim's two links
+async def _gather(*aws):
+    done = await asyncio.gather(*[asyncio.ensure_future(a) for a in aws], return_exceptions=True)
+    return [type(r).__name__ if isinstance(r, BaseException) else r for r in done]
+
+
+async def _r_coc_two_links(env, _):
+    async def one(conn):
+        return (await conn.create_l2cap_channel(spec=l2cap.LeCreditBasedChannelSpec(psm=PSM_LE))).state.name
+
+    return await _gather(one(env.conn_l), one(env.conn_bl))
+
+
+async def _r_classic_two_links(env, _):
+    async def one(conn):
+        return (await conn.create_l2cap_channel(spec=l2cap.ClassicChannelSpec(psm=PSM_BR))).state.name
+
+    return await _gather(one(env.conn_l), one(env.conn_bl))
+
+
+# ---- several waiters of different layers on ONE link: a single cut has to release all of them
+async def _r_le_waiters_one_link(env, ch):
+    async def coc():
+        return (await env.conn_l.create_l2cap_channel(spec=l2cap.LeCreditBasedChannelSpec(psm=PSM_LE))).state.name
+
+    async def read():
+        return bytes(await ch.read_value())
+
+    async def write():  # queued behind the read on the client's request semaphore
+        await ch.write_value(b'written-by-victim', with_response=True)
+        return 'written'
+
+    async def phy():
+        rsp = await env.local.host.send_command(hci.HCI_LE_Read_PHY_Command(connection_handle=env.conn_l.handle))
+        return int(rsp.return_parameters.status)
+
+    return await _gather(read(), write(), coc(), coc(), phy())
+
+
 def _eq(expected):
     return lambda result: result == expected
 
@@ -496,7 +632,33 @@ PROCS = [
     Proc('avdtp_discover', True, 'avdtp.Protocol.discover_remote_endpoints()', _s_avdtp, _r_avdtp_discover, _eq(1)),
     Proc('classic_acl_disconnect', True, 'Connection.disconnect() (BR/EDR)', _no_setup, _r_acl_disconnect),
     Proc('classic_remote_name', True, 'Connection.request_remote_name()', _no_setup, _r_remote_name),
+    # HCI command -> Command Status -> completion event (the waiter exists between the status and the event)
+    Proc('le_encrypt', False, 'Connection.encrypt() with the bonded LTK (LE central, after a completed pairing)', _s_paired,
+         _r_le_encrypt, _eq(True)),
+    Proc('le_subrate_request', False, 'Connection.update_subrate() (HCI_LE_Subrate_Request, waits for the Subrate Change event)',
+         _no_setup, _r_le_subrate),
+    Proc('classic_switch_role', True, 'Connection.switch_role() (HCI_Switch_Role, waits for the Role Change event)', _no_setup,
+         _r_switch_role, _eq(True)),
+    Proc('classic_remote_features', True, 'Connection.get_remote_classic_features() (supported + extended feature pages)',
+         _no_setup, _r_classic_features, _eq(True)),
+    # pairing with a user in the loop (the prompt of the slow user is a task of the stack that is pending at the cut)
+    Proc('smp_pair_numeric_user_slow', False, 'Connection.pair(), LE Secure Connections numeric comparison, the victim\'s user answers late',
+         _s_user(True, 'DISPLAY_OUTPUT_AND_YES_NO_INPUT', 'DISPLAY_OUTPUT_AND_YES_NO_INPUT', 0), _r_pair, _eq(True)),
+    Proc('smp_pair_numeric_peer_user_slow', False, 'Connection.pair(), LE Secure Connections numeric comparison, the peer\'s user answers late',
+         _s_user(True, 'DISPLAY_OUTPUT_AND_YES_NO_INPUT', 'DISPLAY_OUTPUT_AND_YES_NO_INPUT', 1), _r_pair, _eq(True)),
+    Proc('smp_pair_legacy_passkey_user_slow', False, 'Connection.pair(), LE legacy passkey entry (victim types, peer displays), the victim\'s user answers late',
+         _s_user(False, 'KEYBOARD_INPUT_ONLY', 'DISPLAY_OUTPUT_ONLY', 0), _r_pair, _eq(True)),
+    # waiters on both links of the victim / several waiters on one link
+    Proc('le_coc_connect_two_links', False, 'create_l2cap_channel(LeCreditBasedChannelSpec) on the link under test and on the second link at once',
+         _no_setup, _r_coc_two_links, _eq(['CONNECTED', 'CONNECTED'])),
+    Proc('classic_l2cap_connect_two_links', True, 'create_l2cap_channel(ClassicChannelSpec) on the link under test and on the second link at once',
+         _no_setup, _r_classic_two_links, _eq(['OPEN', 'OPEN'])),
+    Proc('le_waiters_one_link', False, 'GATT read + GATT write queued behind it + two LE CoC connects + HCI LE Read PHY, all on one link at once',
+         _s_chr, _r_le_waiters_one_link, _eq([node_value(1), 'written', 'CONNECTED', 'CONNECTED', 0])),
 ]
+EXT_HCI_PROCS = ('le_encrypt', 'le_subrate_request', 'classic_switch_role', 'classic_remote_features')
+USER_PROCS = {'smp_pair_numeric_user_slow': 0, 'smp_pair_numeric_peer_user_slow': 1, 'smp_pair_legacy_passkey_user_slow': 0}
+MULTI_PROCS = ('le_coc_connect_two_links', 'classic_l2cap_connect_two_links', 'le_waiters_one_link')
 PROC_BY_NAME = {p.name: p for p in PROCS}
 
 
@@ -603,6 +765,8 @@ def norm_case(case) -> dict:
     legacy = list(case.get('delays') or [])
     out = {'kind': 'cut', 'proc': case['proc'], 'k': (None if case.get('k') is None else int(case['k'])),
            'cut': case.get('cut')}
+    if case.get('user'):
+        out['user'] = case['user']  # 'never': the pairing user does not answer within the horizon (default: late)
     for i in range(3):
         d = case.get(f'd{i}')
         if d is None and i < len(legacy):
@@ -631,10 +795,14 @@ def _run_case(ctx, case, loop, measure) -> None:
     proc = PROC_BY_NAME[case['proc']]
     k, cut = case['k'], case['cut']
     classic = proc.classic
-    env = Env(classic)
+    env = Env(classic, rich_bystander=(cut == 'transport_lost'), user=case.get('user'))
     S: dict = {'count': 0, 'cut_fired': False, 'cut_task': None, 'lost': False, 'pending_at_cut': None,
                'count_at_done': None}
     labels = {f'proc:{proc.name}', f'cut:{cut}' if cut else 'unfaulted'}
+    env.count_fn = lambda: S['count']
+    S['env'] = env
+    if case.get('user') == 'never':
+        labels.add('user:never')
     failed = []
 
     def fail(sig, what):
@@ -697,6 +865,7 @@ def _run_case(ctx, case, loop, measure) -> None:
         S['cut_fired'] = True
         S['pending_at_cut'] = not S['ptask'].done()
         S['count_at_cut'] = S['count']
+        S['prompts_pending_at_cut'] = env.prompts_pending
         try:
             if cut == 'local_disconnect':
                 S['cut_task'] = loop.create_task(guarded(conn_l.disconnect()))
@@ -784,6 +953,7 @@ def _run_case(ctx, case, loop, measure) -> None:
         if measure is not None:
             measure['M'] = S['count']
             measure['M_done'] = S['count_at_done']
+            measure['prompt_at'] = env.prompt_at
         _record(ctx, case, labels, S, proc, measure)
         return
 
@@ -826,11 +996,26 @@ def _run_case(ctx, case, loop, measure) -> None:
                 fail(f'tables/bystander_connection_lost/{side}/{where}',
                      f'the bystander connection 0x{handle:04X} disappeared from {where} on the {side} ({t})')
 
+    # ---- clause 2b: a transport loss closes EVERY link of that host: host and device agree that none is left
+    # (the controller cannot be told and is not judged)
+    if cut == 'transport_lost' and S['cut_fired']:
+        for which, handle in (('link_under_test', handle_l), ('second_link', handle_bl)):
+            t = {'host': handle in local.host.connections, 'device': handle in local.device.connections}
+            if any(t.values()):
+                where = '+'.join(name for name, present in t.items() if present)
+                fail(f'tables/connection_listed_after_transport_loss/{which}/{where}',
+                     f'after the transport loss connection 0x{handle:04X} ({which}) is still listed in {where} ({t})')
+        if not classic and env.by_channel is not None:
+            labels.add('second_link_had_state')
+
     # ---- clause 3: per-connection state gone
     if S['cut_fired']:
         sides = [('local', local, conn_l, handle_l)]
         if cut in ('local_disconnect', 'remote_disconnect'):
             sides.append(('remote', peer, conn_r, handle_r))
+        if cut == 'transport_lost':
+            # the victim's other link went down with the same transport
+            sides.append(('local_second_link', local, env.conn_bl, handle_bl))
         for side, node, conn, handle in sides:
             for table, detail, *more in stale_state(node, conn, handle, classic):
                 fail(f'stale_state/{table}/{detail}/{side}/{cls}',
@@ -855,6 +1040,7 @@ def _run_case(ctx, case, loop, measure) -> None:
         phase = {'name': 'bystander'}
 
         async def afterwards():
+            env.user = 'late'
             await env.bystander_usable()
             phase['name'] = 'restore'
             if cut == 'link_loss':
@@ -902,8 +1088,13 @@ def _record(ctx, case, labels, S, proc, measure) -> None:
         labels.add('cut_inside_procedure' if inside else 'cut_outside_procedure')
         if k == 0:
             labels.add('cut_before_first_message')
+        if S['env'].prompts_cancelled:
+            labels.add('user_prompt_cancelled_by_cut')
+        if S.get('prompts_pending_at_cut'):
+            labels.add('user_prompt_pending_at_cut')
     nontrivial = cut is not None and (inside or cut == 'transport_lost')
-    ctx.case((case['proc'], k, cut, case_delays(case)), nontrivial, labels,
+    fp = (case['proc'], k, cut, case_delays(case)) + ((case['user'],) if case.get('user') else ())
+    ctx.case(fp, nontrivial, labels,
              sample={'proc': case['proc'], 'what': proc.what, 'k': k, 'cut': cut, 'delays_ms': case_delays(case),
                      'messages_at_cut': S.get('count_at_cut'), 'procedure_pending_at_cut': S.get('pending_at_cut')})
 
